@@ -536,6 +536,9 @@ ROWS = [
     R("BarPlot.overlap@stacked100", "bar_stacked_100", PLOT, ints(-100, 100, True, (0, 100, -100)), group="plot-stacked100", cls="small-int"),
     R("BubblePlot.bubble_scale", "bubble_chart", PLOT, ints(0, 300, True, (100, 99, 101), none=True), none=100, group="plot", corpus="bubbleplot", cls="small-int"),
     R("Marker.size", "line_chart", SER + ".marker", ints(2, 72, True, (9, 7), none=True), none=None, group="marker", corpus="marker", cls="small-int"),
+    # the same properties on a single POINT of a series (c:dPt, found by its c:idx)
+    R("Marker.size@point", "line_chart", SER + ".points[1].marker", ints(2, 72, True, (9, 7), none=True), none=None, group="pmarker", cls="small-int"),
+    R("LineFormat.width@point", "bar_chart", SER + ".points[1].format.line", emu(0, 20116800, interior=(0, 1, 12700, 9525, 25400), none=True), "emu", none=0, group="pline", cls="emu-geometry"),
     R("Chart.chart_style", "bar_chart", CH, ints(1, 48, True, (2, 10), none=True), none=None, group="chart", corpus="chart", cls="small-int"),
     R("TickLabels.offset", "bar_chart", CH + ".category_axis.tick_labels", ints(0, 1000, True, (100, 99, 101, 500)), group="ticks", corpus="cat_ticks", cls="small-int"),
     # ---- booleans / tri-states ------------------------------------------------------------------------------
